@@ -14,11 +14,14 @@ open Swiftness Swiftness.LayoutData
 def usage (s : SegmentInfo) : Nat := (s.stopPtr - s.beginAddr).val
 
 /-- one row `(segment index, row ratio, cells per instance)` of the builtin table: the segment is
-    present, its usage is a whole number of instances, and that number does not exceed the number
-    of instances the trace holds (`traceLen / ratio`, natural division). -/
+    present, the row ratio divides the trace length (the trace holds a whole number
+    `traceLen / ratio` of instances; for power-of-two lengths: the trace is at least as long as one
+    instance), the segment's usage is a whole number of instances, and that number does not exceed
+    the number of instances the trace holds. -/
 def BuiltinRowOK (pi : PublicInput) (traceLen : Nat) : Nat × Nat × Nat → Prop
   | (seg, ratio, cells) =>
-    ∃ s, pi.segments[seg]? = some s ∧ cells ∣ usage s ∧ usage s / cells ≤ traceLen / ratio
+    ∃ s, pi.segments[seg]? = some s ∧ ratio ∣ traceLen ∧
+      cells ∣ usage s ∧ usage s / cells ≤ traceLen / ratio
 
 /-- what `validate_public_input` is meant to accept, over the naturals -/
 def PublicInputOK (D : LayoutData) (pi : PublicInput) (traceLen : Nat) : Prop :=
@@ -31,11 +34,6 @@ def PublicInputOK (D : LayoutData) (pi : PublicInput) (traceLen : Nat) : Prop :=
   (∃ out, pi.segments[D.constD "SEG_OUTPUT"]? = some out ∧ usage out ≤ 2 ^ 128 - 1) ∧
   ∀ row ∈ D.builtins, BuiltinRowOK pi traceLen row
 
-/-- every row ratio of the builtin table divides the trace length (for a power-of-two trace and
-    power-of-two ratios: the trace is at least as long as one instance of every builtin) -/
-def RatiosDivide (D : LayoutData) (traceLen : Nat) : Prop :=
-  ∀ row ∈ D.builtins, row.2.1 ∣ traceLen
-
 /-- well-formedness of the translator-read layout data, as far as `validate_public_input` is
     concerned -/
 structure WellFormed (D : LayoutData) : Prop where
@@ -45,9 +43,14 @@ structure WellFormed (D : LayoutData) : Prop where
   /-- cells per instance in `1..16`, row ratios powers of two `≤ 2^20` -/
   rows : ∀ row ∈ D.builtins, 1 ≤ row.2.2 ∧ row.2.2 ≤ 16 ∧ ∃ r, r ≤ 20 ∧ row.2.1 = 2 ^ r
 
-/-- what `verify_public_input` accepts, and what it then returns.  `programLen` / `outputLen` are
-    the modular differences read as naturals; the program is the first `programLen` cells of the
-    main page, the output its last `outputLen` cells. -/
+/-- number of program cells: `initial_ap - 2 - initial_pc` (modular difference read as a natural) -/
+def programLen (prog exec : SegmentInfo) : Nat := (exec.beginAddr - 2 - prog.beginAddr).val
+
+/-- what `verify_public_input` accepts, and what it then returns.  The program is the first
+    `programLen prog exec` cells of the main page, the output its last `usage out` cells; every
+    one of these cells must sit at its address (`initial_pc + i`, `output_begin + i`).
+    (`programLen + outputLen < 2^64` is the `checked_add`; it follows from the next conjunct for
+    any page that fits in memory.) -/
 def VerifyOK (D : LayoutData) (H : Hashes) (pi : PublicInput) (a b : Felt) : Prop :=
   ∃ prog exec out,
     pi.segments[D.constD "SEG_PROGRAM"]? = some prog ∧
@@ -58,17 +61,15 @@ def VerifyOK (D : LayoutData) (H : Hashes) (pi : PublicInput) (a b : Felt) : Pro
     pi.continuousPageHeaders = [] ∧
     prog.beginAddr = Felt.ofNat D.INITIAL_PC ∧
     prog.stopPtr = Felt.ofNat D.INITIAL_PC + 4 ∧
-    (let programLen := (exec.beginAddr - 2 - prog.beginAddr).val
-     let outputLen := (out.stopPtr - out.beginAddr).val
-     programLen < 2 ^ 64 ∧ outputLen < 2 ^ 64 ∧
-     programLen + outputLen < 2 ^ 64 ∧
-     programLen + outputLen ≤ pi.mainPage.length ∧
-     (∀ i, i < programLen →
-        (pi.mainPage[i]?).map (·.address) = some (prog.beginAddr + Felt.ofNat i)) ∧
-     (∀ i, i < outputLen →
-        (pi.mainPage[pi.mainPage.length - outputLen + i]?).map (·.address) =
-          some (out.beginAddr + Felt.ofNat i)) ∧
-     a = hashChain H ((pi.mainPage.take programLen).map (·.value)) ∧
-     b = hashChain H ((pi.mainPage.drop (pi.mainPage.length - outputLen)).map (·.value)))
+    programLen prog exec < 2 ^ 64 ∧ usage out < 2 ^ 64 ∧
+    programLen prog exec + usage out < 2 ^ 64 ∧
+    programLen prog exec + usage out ≤ pi.mainPage.length ∧
+    (∀ i, i < programLen prog exec →
+      (pi.mainPage[i]?).map (·.address) = some (prog.beginAddr + Felt.ofNat i)) ∧
+    (∀ i, i < usage out →
+      (pi.mainPage[pi.mainPage.length - usage out + i]?).map (·.address) =
+        some (out.beginAddr + Felt.ofNat i)) ∧
+    a = hashChain H ((pi.mainPage.take (programLen prog exec)).map (·.value)) ∧
+    b = hashChain H ((pi.mainPage.drop (pi.mainPage.length - usage out)).map (·.value))
 
 end Swiftness.Spec
